@@ -60,7 +60,8 @@ func init() {
 	c12 := &trace.Config{
 		Methods: []string{trace.MSel, trace.MSelCtl, trace.MSelCtlGiven, trace.MSelCtlStop, trace.MSelCtlStopGiven, trace.MSelConcurrent, trace.MSelMix,
 			trace.MSelInverse, trace.MSelNSortMConc, trace.MSelNConcMSort, trace.MSelNConcMConc, trace.MPoolEMSel, trace.MSelCtlGiven},
-		Clauses:      trace.Clauses(trace.ClSelect, trace.ClGiven, trace.ClOrder, trace.ClOnce, trace.ClBarrier, trace.ClWindow, trace.ClSeq, trace.ClLate),
+		// panic: a selected call that panics into its caller (e.g. on a name list with a repeated name) has not run the named rules
+		Clauses:      trace.Clauses(trace.ClSelect, trace.ClGiven, trace.ClOrder, trace.ClOnce, trace.ClBarrier, trace.ClWindow, trace.ClSeq, trace.ClLate, trace.ClPanic),
 		Gen:          trace.GenOpts{MinRules: 1, MaxRules: 9, FailProb: 0.15, RetProb: 0.2, WideSal: true},
 		Calls:        10,
 		PoolProb:     0.35,
